@@ -1,9 +1,17 @@
 #!/bin/bash
 # tools/try_seeded.sh <Cxx> <patch.diff> [tier]: run a check against a scratch copy of /repo with a patch applied.
+# The check itself runs from a private copy of a built snapshot of /verif (TRY_VERIF, default /var/tmp/verif-stable if it
+# exists, else /verif itself) so that regenerated coq/Gen files of parallel trials and of builders do not interfere.
 P=$1; PATCH=$(readlink -f "$2"); TIER=${3:-quick}
 D=$(mktemp -d /var/tmp/repo-seed.XXXXXX)
 cp -a /repo/. "$D/" && git -C "$D" apply "$PATCH" || { echo "patch does not apply"; rm -rf "$D"; exit 3; }
-cd /verif && VERIF_REPO="$D" ./check "$P" --tier "$TIER" 2>&1 | grep "VIOLATION\|^OK\|KNOWN-FINDING" | tail -12
+SRC=${TRY_VERIF:-/var/tmp/verif-stable}; [ -d "$SRC/coq" ] || SRC=/verif
+if [ "$SRC" = /verif ]; then V=/verif; else V=$(mktemp -d /var/tmp/verif-try.XXXXXX); cp -a "$SRC/." "$V/"; fi
+cd "$V" && VERIF_REPO="$D" VERIF_ALT_EVIDENCE="$V/alt-evidence" ./check "$P" --tier "$TIER" 2>&1 | grep "VIOLATION\|^OK\|KNOWN-FINDING" | tail -12
 rc=${PIPESTATUS[0]}
+if [ "$V" != /verif ]; then
+  mkdir -p /verif/replays/seeded; cp "$V"/replays/$P-*.json /verif/replays/seeded/ 2>/dev/null
+  rm -rf "$V"
+fi
 rm -rf "$D"
 exit $rc
